@@ -144,6 +144,69 @@ def variants(src, toks, rng, k):
     return out
 
 
+# ---------------------------------------------------------------- redundant parentheses around a sub-expression operand
+def chain_variants(rng, n):
+    """Unparenthesised chains of binary operators; a variant wraps one operand that the precedence table makes a
+    subtree anyway (so the parentheses are redundant)."""
+    from .c11 import BIN, BINOPS as OPS
+    out = []
+    names = ["a", "b", "c", "d", "e", "f"]
+    for _ in range(n):
+        k = rng.randint(2, 5)
+        ops = [rng.choice(OPS) for _ in range(k)]
+        atoms = names[:k + 1]
+        # precedence climbing with spans (all operators group to the left)
+        pos = [0]
+
+        def parse(minp):
+            lo = pos[0]
+            node = (lo, lo)
+            while pos[0] < k and BIN[ops[pos[0]]] >= minp:
+                op = ops[pos[0]]
+                pos[0] += 1
+                rhs = parse(BIN[op] + 1)
+                node = (node[0], rhs[1])
+                spans.append(node)
+            return node
+        spans = []
+        parse(0)
+        inner = [sp for sp in spans if sp != (0, k)]
+        toks = []
+        for i, a in enumerate(atoms):
+            toks.append(a)
+            if i < k:
+                toks.append(ops[i])
+        base = "y = " + " ".join(toks) + "\n"
+        cands = inner + [(0, k)]
+        lo, hi = rng.choice(cands)
+        vt = []
+        for i, a in enumerate(atoms):
+            vt.append(("(" if i == lo else "") + a + (")" if i == hi else ""))
+            if i < k:
+                vt.append(ops[i])
+        out.append((base, "y = " + " ".join(vt) + "\n"))
+    return out
+
+
+def judge_chains(ctx, rep, pairs):
+    reqs = []
+    for b, v in pairs:
+        reqs += [{"src": b}, {"src": v}]
+    res, _ = ctx.vh_lines("parse", reqs, timeout=600)
+    if len(res) != len(reqs):
+        raise common.Inconclusive("vh parse answered too few chain requests")
+    for i, (b, v) in enumerate(pairs):
+        rb, rv = res[2 * i], res[2 * i + 1]
+        case = {"src": v, "base": b, "kinds": ["paren-operand"]}
+        if not rb.get("ok"):
+            rep.declined += 1
+        elif not rv.get("ok") or rv.get("ast") != rb.get("ast"):
+            rep.violation("tree-changed:paren-operand", f"redundant parentheses changed the tree: {b.strip()!r} -> {rb.get('ast')!r}; {v.strip()!r} -> {rv.get('ast')!r}", case)
+        else:
+            rep.ok(("chain", b), {"base": b.strip(), "variant": v.strip()} if i < 2 else None)
+            rep.count("rewrite_paren_operand")
+
+
 # exact inputs of listed findings: (sig, base, variant)
 KNOWN_CASES = [
     ("known:comment-line-after-decorator", "@Inheritable\nC = Class {x = Int}\n", "@Inheritable\n# c\nC = Class {x = Int}\n"),
@@ -222,6 +285,8 @@ def run(ctx, rep):
     bs = bases(ctx)
     rep.extra["bases"] = len(bs)
     common.run_parallel(rep, bs, lambda sr, part: judge_bases(ctx, sr, part), nparts=common.NCPU * 2)
+    pairs = chain_variants(ctx.rng("chains"), ctx.n(4000, 100000))
+    common.run_parallel(rep, pairs, lambda sr, part: judge_chains(ctx, sr, part))
     for sig, base, var in KNOWN_CASES:
         res, _ = ctx.vh_lines("parse", [{"src": base}, {"src": var}], timeout=120)
         if len(res) == 2 and res[0].get("ok") and (not res[1].get("ok") or res[1].get("ast") != res[0].get("ast")):
